@@ -741,8 +741,8 @@ package jd
 //@ contract verifCLIMalformed
 //@   bounded
 //@   needs_cli
-//@   cap 176 176
+//@   cap 800 800
 //@   universe garbage verifGarbage()
-//@   universe mode []int{0, 1, 2, 3, 4, 5, 6, 7}
+//@   universe mode []int{0, 1, 2, 3, 4, 5, 6, 7, 8, 9, 10, 11, 12, 13, 14, 15, 16}
 //@   ensures_bounded ret0 == ""
 //@   carries C13 C14
